@@ -74,7 +74,7 @@ struct ops<T, E, hep::vegas_chkpt_with_rng<E, T>>
         if (cfg == 1) return hep::make_vegas_chkpt<T, E>(4, T(1.5), g);
         hep::vegas_pdf<T> pdf(2, 4);
         pdf.set_bin_left(0, 1, T(0.1L)); pdf.set_bin_left(1, 3, T(0.9L));
-        return hep::make_vegas_chkpt<T, E>(pdf, T(0.7L), g);
+        return hep::make_vegas_chkpt<T, E>(pdf, T(23) / T(30), g);   // needs every digit
     }
     static C run(C const& c, std::vector<sz> const& calls) { return hep::vegas(hep::make_integrand<T>(smooth<T>(), 2), calls, c, vf::never_stop()); }
     static C load(std::istream& in) { return hep::make_vegas_chkpt<T, E>(in); }
@@ -88,7 +88,7 @@ struct ops<T, E, hep::multi_channel_chkpt_with_rng<E, T>>
     {
         E g; g.seed(99);
         if (cfg == 3) return hep::make_multi_channel_chkpt<T, E>(T(0.01L), T(0.25), g);
-        return hep::make_multi_channel_chkpt<T, E>(std::vector<T>{T(1), T(0), T(3)}, T(0.02L), T(0.5), g);
+        return hep::make_multi_channel_chkpt<T, E>(std::vector<T>{T(1), T(0), T(3)}, T(1) / T(45), T(5) / T(11), g);
     }
     static C run(C const& c, std::vector<sz> const& calls)
     {
